@@ -235,11 +235,13 @@ class _HelperCompares(Client):
         cmpd, notopen = state
         val = node.value if kind == "return" and node is not None else (assigned_value(node) if kind == "store" else None)
         if val is not None and not cmpd:
+            fl = _flow_of(ctx.func)
             for c in ast.walk(val):
-                if isinstance(c, ast.Compare) and len(c.ops) == 1 and isinstance(c.ops[0], (ast.Eq, ast.NotEq, ast.Is, ast.IsNot)) \
-                        and any(is_call_to(self.P, ctx.func, x, "os.getpid") for x in (c.left, c.comparators[0])) \
-                        and any(dotted(x) and dotted(x)[-1] == self.pid for x in (c.left, c.comparators[0])):
-                    return ((True, notopen),)
+                if isinstance(c, ast.Compare) and len(c.ops) == 1 and isinstance(c.ops[0], (ast.Eq, ast.NotEq, ast.Is, ast.IsNot)):
+                    sides = [fl.expand(x) if isinstance(x, ast.Name) else x for x in (c.left, c.comparators[0])]   # owner_pid = self._pid
+                    if any(is_call_to(self.P, ctx.func, x, "os.getpid") for x in sides) \
+                            and any(dotted(x) and dotted(x)[-1] == self.pid for x in sides):
+                        return ((True, notopen),)
         return (state,)
 
 
